@@ -1,14 +1,16 @@
 #!/bin/bash
 # Development aid: independently confirm seeded mutants (compiles, test suite green, demo fails with / passes without).
-# usage: verify_mutants.sh <results-dir> <id/n>...   ; writes <results-dir>/<id>/<n>/verify.json
+# usage: [VM_DIR=/tmp/vmK] verify_mutants.sh <results-dir> <id/n>...   ; writes <results-dir>/<id>/<n>/verify.json
+# (VM_DIR: scratch worktree + target dir, one per parallel invocation)
 set -u
 RES="$1"; shift
-WT=/tmp/vm/wt
+VM="${VM_DIR:-/tmp/vm}"
+WT=$VM/wt
 export CARGO_NET_OFFLINE=true
-mkdir -p /tmp/vm
+mkdir -p "$VM"
 if [ ! -d "$WT" ]; then git -C /repo worktree add -q --detach "$WT" HEAD; cp /repo/Cargo.lock "$WT/"; fi
 git -C "$WT" checkout -q --detach "$(git -C /repo rev-parse HEAD)"
-export CARGO_TARGET_DIR=/tmp/vm/target
+export CARGO_TARGET_DIR=$VM/target
 for m in "$@"; do
   d="$RES/$m"
   git -C "$WT" checkout -q -- . ; git -C "$WT" clean -fdq -e Cargo.lock
